@@ -135,3 +135,163 @@ def record_steps(bt, top, steps, limit=400):
     finally:
         for cls, name, orig in reversed(saved):
             setattr(cls, name, orig)
+
+
+# ---------------------------------------------------------------------------------------------------------------
+# day level: the loop body of Backtest.run and the stepping of shadow ("paper") copies, as `btday` steps
+def all_papers(bt, top):
+    """every shadow copy reachable from a tree (papers of sub-strategies, papers inside papers)"""
+    out = []
+    stack = [top]
+    while stack:
+        n = stack.pop()
+        for k in getattr(n, "_childrenv", None) or []:
+            if isinstance(k, bt.core.StrategyBase):
+                stack.append(k)
+                p = getattr(k, "_paper", None)
+                if p is not None and getattr(k, "_paper_trade", False):
+                    out.append((k, p))
+                    stack.append(p)
+    return out
+
+
+@contextlib.contextmanager
+def record_days(bt, tops=None, limit=4000):
+    """For every root strategy (a node that is its own parent: a Backtest's strategy and every shadow copy; or only the
+    given `tops`), every outermost `update(date)` and `run()` call is logged with the world before and after;
+    `events[id(top)]` = list of dicts, `events["objects"][id]` = the root object."""
+    c = bt.core
+
+    class _Reg(dict):
+        def __contains__(self, k):
+            return dict.__contains__(self, k)
+
+    events = {"objects": {}}
+    byid = {}
+    active = {}
+    total = [0]
+
+    def admit(node):
+        k = id(node)
+        if k in byid:
+            return byid[k] is node
+        if tops is not None and not any(node is t for t in tops):
+            return False
+        try:
+            if node.parent is not node:
+                return False
+        except Exception:
+            return False
+        byid[k] = node
+        active[k] = 0
+        events[k] = []
+        events["objects"][k] = node
+        return True
+    orig_update = c.StrategyBase.update
+    run_classes = [cls for cls in (c.StrategyBase, c.Strategy) if "run" in cls.__dict__]
+    orig_runs = {cls: cls.__dict__["run"] for cls in run_classes}
+
+    def w_update(self, date, data=None, inow=None):
+        k = id(self)
+        if not admit(self) or active[k] or total[0] >= limit or data is not None:
+            return orig_update(self, date, data, inow)
+        try:
+            d = None if (isinstance(date, int) and date == 0) else int(self.data.index.get_loc(date))
+        except Exception:
+            d = None
+        if d is None:
+            return orig_update(self, date, data, inow)
+        pre = E.snap_world(bt, self)
+        active[k] += 1
+        total[0] += 1
+        try:
+            r = orig_update(self, date, data, inow)
+        except Exception as e:  # noqa
+            events[k].append({"kind": "update", "d": d, "pre": pre, "err": E.classify_exc(e), "msg": str(e)[:200]})
+            raise
+        finally:
+            active[k] -= 1
+        events[k].append({"kind": "update", "d": d, "pre": pre, "post": E.snap_world(bt, self)})
+        return r
+
+    def mk_run(cls):
+        orig = orig_runs[cls]
+
+        def w_run(self):
+            k = id(self)
+            if not admit(self) or active[k] or total[0] >= limit:
+                return orig(self)
+            pre = E.snap_world(bt, self)
+            active[k] += 1
+            try:
+                r = orig(self)
+            except Exception as e:  # noqa
+                events[k].append({"kind": "run", "pre": pre, "err": E.classify_exc(e), "msg": str(e)[:200]})
+                raise
+            finally:
+                active[k] -= 1
+            events[k].append({"kind": "run", "pre": pre, "post": E.snap_world(bt, self)})
+            return r
+        return w_run
+
+    c.StrategyBase.update = w_update
+    for cls in run_classes:
+        setattr(cls, "run", mk_run(cls))
+    try:
+        yield events
+    finally:
+        c.StrategyBase.update = orig_update
+        for cls in run_classes:
+            setattr(cls, "run", orig_runs[cls])
+
+
+def day_steps(events, standalone):
+    """group one top's events into `btday` steps.  A stand-alone backtest's first update (synthetic row) is a plain `update`
+    step (Backtest.run does not call run() there); a shadow copy is stepped with the full body on every date."""
+    steps = []
+    i = 0
+    first = True
+    while i < len(events):
+        e = events[i]
+        if e["kind"] != "update":
+            # a run() not preceded by an update of ours (user code): not a day of the loop
+            i += 1
+            continue
+        if "err" in e:
+            steps.append({"pre": e["pre"], "op": {"op": "update", "d": e["d"]}, "err": e["err"], "msg": e.get("msg")})
+            i += 1
+            first = False
+            continue
+        if first and standalone:
+            st = {"pre": e["pre"], "op": {"op": "update", "d": e["d"]}, "post": e["post"]}
+            E.fill_paper(st["pre"]["root"], st["post"]["root"])
+            steps.append(st)
+            i += 1
+            first = False
+            continue
+        first = False
+        d = e["d"]
+        if i + 1 < len(events) and events[i + 1]["kind"] == "run":
+            r = events[i + 1]
+            if "err" in r:
+                i += 2
+                continue   # the algos raised: nothing to compare for this day
+            if i + 2 < len(events) and events[i + 2]["kind"] == "update" and events[i + 2].get("d") == d:
+                u2 = events[i + 2]
+                if "err" in u2:
+                    i += 3
+                    continue
+                w2 = r["post"]
+                st = {"pre": e["pre"], "op": {"op": "btday", "d": d, "ran": True, "w2": w2}, "post": u2["post"]}
+                E.fill_paper(st["pre"]["root"], st["post"]["root"])
+                E.fill_paper(w2["root"], st["post"]["root"])
+                steps.append(st)
+                i += 3
+                continue
+            i += 2
+            continue
+        st = {"pre": e["pre"], "op": {"op": "btday", "d": d, "ran": False, "w2": None}, "post": e["post"]}
+        E.fill_paper(st["pre"]["root"], st["post"]["root"])
+        steps.append(st)
+        i += 1
+    return steps
